@@ -269,8 +269,11 @@ def run_property(pid, tier, seed):
                 bl[o.name] = {"sha": eng.repo.func(o.fn).sha}
         with open(os.path.join(VERIF, "baseline", f"{pid}.json"), "w") as fh:
             json.dump(bl, fh, indent=0, sort_keys=True)
-    os.makedirs(os.path.join(VERIF, "evidence"), exist_ok=True)
-    with open(os.path.join(VERIF, "evidence", f"{pid}.json"), "w") as f:
+    # evidence/ describes /repo itself; a run against a scratch copy (VERIF_REPO, developer tools only) writes elsewhere
+    scratch_run = os.environ.get("VERIF_REPO") and os.path.realpath(os.environ["VERIF_REPO"]) != os.path.realpath("/repo")
+    ev_dir = os.path.join(VERIF, "replays", "_scratch_evidence") if scratch_run else os.path.join(VERIF, "evidence")
+    os.makedirs(ev_dir, exist_ok=True)
+    with open(os.path.join(ev_dir, f"{pid}.json"), "w") as f:
         json.dump(ev, f, indent=1, default=str)
 
     for line in known_lines:
